@@ -1,5 +1,6 @@
 (* C05 — A crash at any step leaves a log that Recover reopens consistently (the log-file level). *)
 From KV Require Import Base Model Codec CodecProofs RecoverProofs LogInv OpenProofs CrashDir CrashDirProofs RecoverCrash RecoverCrashProofs.
+From KV Require PublishProofs Spec History CrashOpen.
 
 (* a crash part-way through the append of a record (any proper prefix of the record reached the file),
    after any number of complete records, whatever the index file holds: Recover cuts exactly the torn record,
@@ -223,3 +224,44 @@ Theorem C05_migrate_crash_safe :
   exists w, (w = v \/ w = mv) /\ rlog img = enc_log crc w ms.
 Proof. exact migrate_crash_safe. Qed.
 Print Assumptions C05_migrate_crash_safe.
+
+(* ---------- the whole directory, at the level of records (CrashOpen.v).  A directory all of whose segments are well
+   formed except that the index file of the NEWEST segment holds anything at all - missing, a prefix, stale items: what a
+   crash during a Publish, a rollover or an index write leaves once the byte-level theorems above have cut the torn
+   record - opens with Recover to a handle that satisfies the log invariant and shows exactly the records of the log files *)
+Theorem C05_crash_open_recovers :
+  forall (H : bytes -> Z) st c0,
+  opened st = None -> lvirt st = false -> CrashOpen.crash_dir (segs st) ->
+  crecover (norm_cfg c0) = true -> cro (norm_cfg c0) = false ->
+  forall st', log_open H st c0 = Ok st' -> Inv st' /\ abs st' = abs_dir (segs st).
+Proof. exact CrashOpen.crash_open_recovers. Qed.
+Print Assumptions C05_crash_open_recovers.
+
+(* hence: a Publish cut short after ANY number k of complete records of its batch - in any reachable state (Inv), with
+   the rollover it required, and whatever the crash left of the writing segment's index file - reopens with Recover to
+   exactly the log before it plus the first k messages of the batch, with the offsets Publish assigns: "every message
+   whose Publish had returned, possibly followed by a prefix of the batch being published; nothing else" *)
+Theorem C05_publish_crash_recovers :
+  forall (H : bytes -> Z) st c ms k ix c0,
+  Inv st -> opened st = Some c -> cro c = false -> PublishProofs.sizes_ok (firstn k ms) ->
+  exists st_k,
+    log_publish H st (firstn k ms) = Ok (st_k, Spec.anext (abs st) + zlen (firstn k ms)) /\
+    forall st',
+      crecover (norm_cfg c0) = true -> cro (norm_cfg c0) = false ->
+      log_open H (mkState (CrashOpen.damage_head_index (segs st_k) ix) 0 None false) c0 = Ok st' ->
+      Inv st' /\ abs st' = Spec.spec_publish (abs st) (firstn k ms).
+Proof. exact CrashOpen.publish_crash_recovers. Qed.
+Print Assumptions C05_publish_crash_recovers.
+
+(* non-vacuity: after three messages, a batch of two cut after its first record, the index file reduced to its first
+   item: Open with Recover succeeds and shows four messages, NextOffset 4 *)
+Definition c05_hash (b : bytes) : Z := 0.
+Definition c05_cfg : cfg := mkCfg false false false false 1048576 false true V2 false false.
+Definition c05_state := fst (History.hrun c05_hash init_state
+  [History.HOpen c05_cfg; History.HPub [mkMsg 0 5 [97%N] [1%N]; mkMsg 0 6 [98%N] [2%N]; mkMsg 0 7 [99%N] [3%N]]]).
+Example C05_publish_crash_example :
+  exists st_k st',
+    log_publish c05_hash c05_state (firstn 1 [mkMsg 0 8 [100%N] [4%N]; mkMsg 0 9 [101%N] [5%N]]) = Ok (st_k, 4) /\
+    log_open c05_hash (mkState (CrashOpen.damage_head_index (segs st_k) (Some (V2, [mkItem 0 8 0 0]))) 0 None false) c05_cfg = Ok st' /\
+    map moff (Spec.live (abs st')) = [0; 1; 2; 3] /\ Spec.anext (abs st') = 4.
+Proof. eexists. eexists. split; [vm_compute; reflexivity|]. split; [vm_compute; reflexivity|]. split; vm_compute; reflexivity. Qed.
